@@ -337,3 +337,18 @@ package layout
 //@     step only_the_position_of_this_paragraph_is_marked: forall k int :: {consumedParaIndices[k]} k != j ==> (has(consumedParaIndices, k) && consumedParaIndices[k]) == (has(prev(consumedParaIndices), k) && prev(consumedParaIndices)[k])
 //@   loop 4:
 //@     step unmarked_paragraph_becomes_an_element: len(elements) == prev(len(elements)) + ((has(consumedParaIndices, i) && consumedParaIndices[i]) ? 0 : 1)
+
+// ---- C11: page-number spellings are compared without regard to case ("PAGE #", "Pg #"): the filter must remove what the
+// detector recognised ----
+//@ func isPageNumberPattern results (r)
+//@   property C11
+//@   flags callsites
+//@   callsite EqualFold(a, b) requires compared_without_regard_to_case: a == trimmed && b == pattern
+
+// ---- C09: the text of a paragraph is the texts of its lines, every one in full (a hyphen at a line end stays: it came
+// from a fragment), joined by single spaces at most ----
+//@ func (*ParagraphDetector) assembleParagraphText results (res)
+//@   property C09
+//@   callsite WriteString(s) requires whole_line_text_or_a_separator: s == " " || s == line.Text
+//@   loop 0:
+//@     step the_line_is_written_in_full: len(sb.String()) >= prev(len(sb.String())) + len(line.Text) && len(sb.String()) <= prev(len(sb.String())) + len(line.Text) + 1
